@@ -3639,7 +3639,16 @@ class Fused(Blockwise):
         for _expr in self.exprs:
             if isinstance(_expr, Fused):
                 subgraph, name = _expr._task(index)[1:3]
-                graph.update(subgraph)
+                # The placeholders of the nested group number *its* dependencies.
+                # Each of those is either a member of this group (which defines
+                # the key itself) or one of our dependencies (numbered below)
+                graph.update(
+                    {
+                        key: task
+                        for key, task in subgraph.items()
+                        if not _is_dependency_placeholder(task)
+                    }
+                )
                 graph[(name, index)] = name
             elif self._broadcast_dep(_expr):
                 # When _expr is being broadcasted, we only
@@ -3662,6 +3671,10 @@ class Fused(Blockwise):
         for i, dep in enumerate(deps):
             graph["_" + str(i)] = dep
         return dask.core.get(graph, name)
+
+
+def _is_dependency_placeholder(task):
+    return isinstance(task, str) and task[:1] == "_" and task[1:].isdigit()
 
 
 # Used for sorting with None
